@@ -38,6 +38,11 @@ pub fn configs_c02(tier: Tier) -> Vec<Box<dyn Config>> {
     all_colls::<S3>(&mut v, Plan::Seq, u, tier);
     v.push(lay::<S6>(Coll::Map, Plan::Zero, u, tier));
     v.push(Box::new(ZstTables { tier }));
+    if !tiny {
+        // the parallel iterators are part of the safe API: split trees of the real producers and real pools (details: C19)
+        v.push(Box::new(super::c19::SplitTrees { tier }));
+        v.push(Box::new(super::c19::Pools { tier }));
+    }
     all_colls::<S1>(&mut v, Plan::Zero, u, tier);
     v.push(lay::<S1>(Coll::Set, Plan::Seq, ubig, tier));
     all_colls::<S2>(&mut v, Plan::Max, u, tier);
@@ -102,6 +107,14 @@ pub fn configs_c03(tier: Tier) -> Vec<Box<dyn Config>> {
     v.push(Box::new(BfsConfig::new(l, MapHarness::<TKey, TVal>::new(c), Limits { max_wall_s: if q { 40.0 } else { 900.0 }, ..Default::default() })));
     // HashTable: extract_if / drain cuts are operations of its alphabet; into_iter / drain cuts as probes
     v.push(super::c06::tab(Plan::Zero, if q { 4 } else { 7 }, if q { 6 } else { 9 }, vec![TProbe::Iterators], true, tier, "-release"));
+    // HashSet with tracked elements: its own operations (the assigning operators `|=`, `&=`, `^=`, `-=`, `replace`,
+    // `take`, `get_or_insert*`) move elements in and out of the table themselves
+    {
+        let mut c = crate::setsut::SetCfg::new(Plan::Zero, if q { 4 } else { 6 });
+        c.max_buckets = if sse2 { 64 } else { 32 };
+        let l = format!("{}-set-release", c.label());
+        v.push(Box::new(BfsConfig::new(l, crate::setsut::SetHarness::new(c), Limits { max_wall_s: if q { 40.0 } else { 600.0 }, ..Default::default() })));
+    }
     // HashSet / layouts with drop glue through the leak-free part of the layout system
     // exactly-once release also when a callback panics (single-fault enumeration, details: C04)
     v.push(super::c04::mk::<TKey, TVal>(if sse2 { Plan::Seq } else { Plan::Zero }, if q { 4 } else { 7 }, vec![vec![]], None, tier, false, "-faults"));
@@ -121,6 +134,9 @@ pub fn configs_c03(tier: Tier) -> Vec<Box<dyn Config>> {
     v.push(Box::new(BfsConfig::new(l, h, Limits { max_wall_s: 60.0, ..Default::default() })));
     // zero-sized elements with a construction / clone / drop ledger
     v.push(Box::new(ZstTables { tier }));
+    // parallel drains hand every element to exactly one consumer or drop it exactly once (details: C19)
+    v.push(Box::new(super::c19::SplitTrees { tier }));
+    v.push(Box::new(super::c19::Pools { tier }));
     v
 }
 
@@ -240,6 +256,9 @@ fn zst_case_of<Z: ZT>(n: usize, mask: u32, mode: u8) -> Result<(), String> {
         Ok(())
     };
     chk(&t, n)?;
+    if t.allocation_size() != env::live_bytes() {
+        return Err(format!("{}: allocation_size() = {} but the allocator ledger holds {} bytes", what(), t.allocation_size(), env::live_bytes()));
+    }
     // clone / clone_from create exactly one new element per stored element (ledger of a zero-sized type)
     {
         let c = t.clone();
